@@ -21,6 +21,7 @@ from __future__ import annotations
 import json
 
 from harness import core
+from harness.extractors.job_skeleton import extract_job_skeleton
 from harness.engines import cachehist as ch
 
 META = {
@@ -71,7 +72,9 @@ OBLIGATIONS = [
         "C11_shadow_old_witness",
     )
 ]
-LEAN_TARGETS = ["PydraModel.Props.C11"]
+OBLIGATIONS.append("PydraModel.JobProto.Skel.C11_skeleton")  # decide over the regenerated Job.run / run_async skeleton
+LEAN_TARGETS = ["PydraModel.Props.C11", "PydraModel.JobProto.HashCheckSkel"]
+EXTRACTORS = [extract_job_skeleton]
 MODEL_TARGETS = ["PydraModel.JobProto.CacheHist", "PydraModel.DriverUtil"]
 
 CORPUS = core.VERIF / "corpus" / "cachehist" / "histories.jsonl"
@@ -158,9 +161,9 @@ def correspondence(ctx):
     # corpus first: the D8 witness (fixed: must pass) in all plant flavours, the stale-_errored regression, rerun/propagate;
     # then generated histories (one driver call for everything: the Lean interpreter's start-up dominates under load)
     cases = list(corpus)
-    n_debug = ctx.pick(40, 1500)
+    n_debug = ctx.pick(40, 700)
     cases += [gen_history(ctx.rng, 8, "debug", torn=(i % 25 == 7)) for i in range(n_debug)]
-    n_cf = ctx.pick(1, 30)
+    n_cf = ctx.pick(1, 20)
     cases += [gen_history(ctx.rng, ctx.pick(3, 5), "cf") for _ in range(n_cf)]
     run_cases(ctx, cases)
     ctx.extra["correspondence_s"] = round(time.time() - t0, 1)
